@@ -383,3 +383,21 @@ func smallResponseClass(pd *gabi.ProofD) string {
 	}
 	return fmt.Sprint(n)
 }
+
+// fixedBuilder is a harness ProofBuilder contributing fixed values: it lets the harness reach the
+// library's own challenge hash through the public API instead of re-implementing it.
+type fixedBuilder struct{ vals []*big.Int }
+
+func (f fixedBuilder) Commit(map[string]*big.Int) ([]*big.Int, error) { return f.vals, nil }
+func (f fixedBuilder) CreateProof(*big.Int) gabi.Proof                { return nil }
+func (f fixedBuilder) PublicKey() *gabikeys.PublicKey                 { return nil }
+func (f fixedBuilder) SetProofPCommitment(*gabi.ProofPCommitment)     {}
+
+// gabiHashCommit returns the library's hash of (v[0], v[1..n-2], v[n-1]) for non-signature sessions.
+func gabiHashCommit(v []*big.Int) *big.Int {
+	c, err := gabi.ProofBuilderList{fixedBuilder{v[1 : len(v)-1]}}.ChallengeWithRandomizers(v[0], v[len(v)-1], nil, false)
+	if err != nil {
+		panic(err)
+	}
+	return c
+}
